@@ -262,6 +262,8 @@ def concH : Handler := fun inp impl => do
     return ({ model := Json.null, agree := true, spec := true, nontrivial := false, tag := "harness-" ++ err } : Verdict).toJson
   let host := getS inp "host"
   let t ← targetOf (getO impl "t")
+  if t.code == 0 || getB (getO impl "t") "odd" || (tmplParts t).1.isEmpty || host.isEmpty then
+    return ({ model := Json.null, agree := true, spec := true, nontrivial := false, tag := "not-a-redirect-or-odd" } : Verdict).toJson
   let pairs := match getO impl "pairs" with | .arr a => a.toList | _ => []
   let check (p : Json) : Bool × Bool :=
     let target := getS p "target"
